@@ -278,7 +278,7 @@ def make(sx, kind, pfx=""):
         return p
     if kind == "UI":
         return pdu.UnnumberedInformation(
-            sap("dsap"), sap("ssap"), opt_bytes(sx, pfx + "data", [0, 1, 2, 9]))
+            sap("dsap"), sap("ssap"), opt_bytes(sx, pfx + "data", [0, 1, 2, 9] + ([] if pfx else [2175])))
     if kind == "CONNECT":
         return pdu.Connect(sap("dsap"), sap("ssap"),
                            sx.int(pfx + "miu", 128, 2175), sx.int(pfx + "rw", 0, 15),
@@ -312,7 +312,7 @@ def make(sx, kind, pfx=""):
     if kind == "I":
         return pdu.Information(sap("dsap"), sap("ssap"), sx.int(pfx + "ns", 0, 15),
                                sx.int(pfx + "nr", 0, 15),
-                               opt_bytes(sx, pfx + "data", [0, 1, 2, 9]))
+                               opt_bytes(sx, pfx + "data", [0, 1, 2, 9] + ([] if pfx else [2175])))
     if kind == "RR":
         return pdu.ReceiveReady(sap("dsap"), sap("ssap"), sx.int(pfx + "nr", 0, 15))
     if kind == "RNR":
